@@ -548,8 +548,22 @@ func (g *generator) body(p *gpkg, vars []scopeVar, extra []string, n int) []stri
 			continue
 		}
 		tag := g.nextTag()
+		// "¤CODE¤stmt": under Ignores the statement carries an @ignore of exactly that code (standalone or trailing)
+		forced := ""
+		if strings.HasPrefix(s, "¤") {
+			k := strings.Index(s[len("¤"):], "¤")
+			forced, s = s[len("¤"):len("¤")+k], s[2*len("¤")+k:]
+		}
 		raw := s
 		s = strings.ReplaceAll(s, "§", g.local(fmt.Sprint(g.tag)))
+		if forced != "" && g.o.Ignores && !strings.Contains(s, "\n") {
+			if r.Bool() {
+				stmts = append(stmts, "// @ignore "+forced, s+" "+tag)
+			} else {
+				stmts = append(stmts, s+" "+tag+" // @ignore "+forced)
+			}
+			continue
+		}
 		if strings.Contains(s, "\n") {
 			ls := strings.Split(s, "\n")
 			for k := 0; k < len(ls)-1; k++ {
@@ -734,6 +748,10 @@ func (g *generator) renderPkg(m *Module, p *gpkg, decls []*gpkg) {
 	add("func pairOf() (int, int) { return 1, 2 }")
 	add("var PairA, PairB = pairOf() " + g.nextTag())
 	add("type Free struct {\n\tX     int\n\tItems []int\n\tAny   any\n}")
+	// methods whose receiver is an interface literal (not a named type)
+	add("var Sink interface{ Emit(int) int }")
+	add("type Holder struct {\n\tCloser interface{ Close() error }\n}")
+	add("func useSink(h *Holder) {\n" + indent([]string{"_ = Sink.Emit(1) " + g.nextTag(), "_ = h.Closer.Close() " + g.nextTag()}) + "}")
 	// every visible type is referenced at least once in every rendering (so that alias declarations of the
 	// spelling variants do not introduce a first reference the base rendering lacks)
 	for i, t := range visible {
@@ -760,8 +778,13 @@ func (g *generator) renderPkg(m *Module, p *gpkg, decls []*gpkg) {
 			add(td)
 		}
 	}
+	// the group's own doc comment: none, prose, or an annotation (it speaks for the specs that have no doc of their own)
+	groupDoc := []string{"", "// Grouped declarations of this package.\n", "// Shared by the undocumented specs.\n// @immutable\n"}[g.xr.Intn(3)]
+	if g.o.NoAnnotations && strings.Contains(groupDoc, "@") {
+		groupDoc = "// Grouped declarations.\n"
+	}
 	if len(grouped) > 0 {
-		add("type (\n" + strings.Join(grouped, "\n") + "\n)")
+		add(groupDoc + "type (\n" + strings.Join(grouped, "\n") + "\n)")
 	}
 	if len(p.types) > 0 {
 		add("func UsePlain(pl *Plain) {\n" + indent([]string{"pl.X = 1 " + g.nextTag(), "pl.X++ " + g.nextTag(), "_ = Plain{} " + g.nextTag(), "_ = new(Plain) " + g.nextTag(), "var zp Plain " + g.nextTag(), "_ = zp"}) + "}")
@@ -811,6 +834,18 @@ func (g *generator) renderPkg(m *Module, p *gpkg, decls []*gpkg) {
 		} else {
 			b := []string{"*" + recv + "++ " + g.nextTag(), "(*" + recv + ")-- " + g.nextTag(), "*" + recv + " = 5 " + g.nextTag()}
 			add("func (" + recv + " *" + t.name + ") Inc() {\n" + indent(b) + "}")
+		}
+		// a second method on the same receiver type whose receiver has another name (what is known about a
+		// receiver belongs to the method, not to the type)
+		recv2 := "m"
+		if recv == "m" {
+			recv2 = "r"
+		}
+		if t.kind == 0 {
+			add("func (" + recv2 + " *" + t.name + ") Bump() {\n" + indent([]string{"*" + recv2 + " = " + t.name + "{} " + g.nextTag(), recv2 + ".X = 8 " + g.nextTag(), recv2 + ".X++ " + g.nextTag()}) + "}")
+			add("func (_ *" + t.name + ") Anon(" + recv + " *Free) {\n" + indent([]string{"*" + recv + " = Free{} " + g.nextTag(), recv + ".X = 1 " + g.nextTag()}) + "}")
+		} else {
+			add("func (" + recv2 + " *" + t.name + ") Dec() {\n" + indent([]string{"*" + recv2 + "-- " + g.nextTag(), "*" + recv2 + " = 6 " + g.nextTag(), "*" + recv2 + " += 1 " + g.nextTag()}) + "}")
 		}
 		if t.kind == 0 {
 			add("type recvAlias" + t.name + " = " + t.name)
@@ -873,16 +908,19 @@ func (g *generator) renderPkg(m *Module, p *gpkg, decls []*gpkg) {
 				ex = append(ex, "_ = "+p.alias[im]+"."+f.name+"()")
 				ex = append(ex, "_ = "+p.alias[im]+"."+f.name)
 			}
+			if !im.thin {
+				ex = append(ex, "_ = "+p.alias[im]+".Sink.Emit(2)", "_ = (&"+p.alias[im]+".Holder{}).Closer.Close()", "_ = "+p.alias[im]+".Sink.Emit")
+			}
 		}
 		// values obtained from calls: chained writes and method calls (a reported expression inside another one)
 		chain := func(call string, t *gtype) {
 			ex = append(ex, call+".X = 1", call+".X++", call+".Items[0] = 2", call+".Cache = 3", "_ = "+call+".X",
 				"q§ := "+call+"; q§.X = 4", call+".\n\tX = 5")
 			if t.tmeth {
-				ex = append(ex, call+".ResetForTest()", call+".\n\tResetForTest()")
+				ex = append(ex, call+".ResetForTest()", call+".\n\tResetForTest()", "¤TONL03¤"+call+".ResetForTest()", "¤TONL02¤"+call+".ResetForTest()")
 			}
 			if t.pmeth {
-				ex = append(ex, call+".Internal()", "_ = "+call+".Internal", call+".\n\tInternal()")
+				ex = append(ex, call+".Internal()", "_ = "+call+".Internal", call+".\n\tInternal()", "¤PKGO03¤"+call+".Internal()", "¤PKGO02¤"+call+".Internal()")
 			}
 			ex = append(ex, call+".Mutate()")
 		}
@@ -1060,6 +1098,9 @@ func (g *generator) renderPkg(m *Module, p *gpkg, decls []*gpkg) {
 				rec = "Rec"
 			}
 			ex = append(ex, "var ma§, mb§ = pairOf(); _, _ = ma§, mb§", "var mc§, md§ int = pairOf(); _, _ = mc§, md§")
+			// grouped declarations: initialised and zero-valued specs in either order
+			ex = append(ex, "var (\n\tgi§ = 1\n\tgz§ "+rec+"\n\tgp§ *"+rec+"\n); _, _, _ = gi§, gz§, gp§",
+				"var (\n\tgz§ "+rec+"\n\tgi§ = "+rec+"{}\n\tgy§, gx§ "+rec+"\n); _, _, _, _ = gi§, gz§, gy§, gx§")
 			ex = append(ex, "var l§ "+rec+"; l§.X = 1", "lp§ := new("+rec+"); lp§.X++", "_ = "+rec+"{X: 2}", "var la§ []"+rec+"; la§[0].Items[0] = 3", "lq§ := &"+rec+"{}; lq§.Cache = 1")
 			// two locals of one name and different types in sibling scopes (the unannotated type first or second)
 			sh := g.local("sh")
@@ -1188,6 +1229,7 @@ func (g *generator) renderPkg(m *Module, p *gpkg, decls []*gpkg) {
 		if r.Chance(1, 2) {
 			add("var Z" + vn + " " + g.typeRef(p, t, 2) + " " + g.nextTag() + trail)
 		}
+		add("var (\n\tinit" + vn + " = 1 " + g.nextTag() + "\n\tZg" + vn + " " + g.typeRef(p, t, 3) + " " + g.nextTag() + "\n\tlit" + vn + " = " + g.typeRef(p, t, -1) + "{} " + g.nextTag() + "\n\tZh" + vn + ", Zi" + vn + " " + g.typeRef(p, t, 4) + " " + g.nextTag() + "\n)")
 	}
 
 	if g.o.NearMiss {
@@ -1207,6 +1249,11 @@ func (g *generator) renderPkg(m *Module, p *gpkg, decls []*gpkg) {
 			}
 			add("func UseNearDocs() {\n" + indent(b) + "}")
 		}
+		// keyword lines inside a documented function: in the body, in the signature, after the body
+		add("// BodyNote is documented; the lines inside it are ordinary comments.\nfunc BodyNote() int {\n\t// @testonly\n\tx := 1\n\t// @packageonly nobody\n\treturn x\n}\n// @testonly")
+		add("// Note is a documented method.\nfunc (pl *Free) Note() {\n\t// @testonly\n\t// @packageonly nobody\n}")
+		add("// SigNote is documented.\nfunc SigNote( // @testonly\n\ta int, // @packageonly nobody\n) int { // @testonly\n\treturn a\n}")
+		add("func UseBodyNote(f *Free) {\n" + indent([]string{"_ = BodyNote() " + g.nextTag(), "f.Note() " + g.nextTag(), "_ = SigNote(1) " + g.nextTag()}) + "}")
 		add("/*\nBlockDoc is documented in a block comment.\n@immutable\n@constructor NewBlockDoc\n*/\ntype BlockDoc struct{ X int }")
 		add("/*\n@testonly\n@packageonly nobody\n*/\nfunc BlockFn() int { return 3 }")
 		add("/* @immutable */\n/* @testonly */\ntype BlockDoc2 struct{ X int }")
@@ -1440,6 +1487,8 @@ func (g *generator) renderPkg(m *Module, p *gpkg, decls []*gpkg) {
 		// external test package
 		self := p.path
 		m.Files[dir+"/export_test.go"] = "package " + p.name + "\n\n// DeclInTest is declared in a test file of the package.\n// @immutable\n// @constructor NewDeclInTest\ntype DeclInTest struct{ X int }\n\nfunc NewDeclInTest() *DeclInTest { return &DeclInTest{} }\n"
-		m.Files[dir+"/ext_test.go"] = "package " + p.name + "_test\n\nimport (\n\t\"testing\"\n\n\tself \"" + self + "\"\n)\n\nfunc TestNothing(t *testing.T) {\n\td := self.NewDeclInTest() " + g.nextTag() + "\n\td.X = 1 " + g.nextTag() + "\n\t_ = self.DeclInTest{} " + g.nextTag() + "\n}\n"
+		m.Files[dir+"/ext_test.go"] = "package " + p.name + "_test\n\nimport (\n\t\"testing\"\n\n\tself \"" + self + "\"\n)\n\nfunc TestNothing(t *testing.T) {\n\td := self.NewDeclInTest() " + g.nextTag() + "\n\td.X = 1 " + g.nextTag() + "\n\t_ = self.DeclInTest{} " + g.nextTag() + "\n}\n" +
+			"\n// ExtOnly is declared in the external test package.\n// @immutable\n// @constructor NewExtOnly\ntype ExtOnly struct{ X int }\n\nfunc NewExtOnly() *ExtOnly { return &ExtOnly{X: 1} }\n\n" +
+			"func touchExtOnly() {\n\te := &ExtOnly{} " + g.nextTag() + "\n\te.X = 2 " + g.nextTag() + "\n\te.X++ " + g.nextTag() + "\n\tvar z ExtOnly " + g.nextTag() + "\n\t_ = z\n}\n"
 	}
 }
